@@ -16,103 +16,869 @@ Definition needs_escape (html : bool) (b : Z) : bool :=
   (b <? 32) || (127 <? b) || (b =? 34) || (b =? 92) ||
   (html && ((b =? 60) || (b =? 62) || (b =? 38))).
 
+(* ---------- helpers: bytes, powers, lists ---------- *)
+Lemma wfb_cons x r : wfb (x :: r) = true <-> (0 <= x < 256) /\ wfb r = true.
+Proof.
+  unfold wfb; cbn [forallb]; unfold is_byte; rewrite !andb_true_iff, Z.leb_le, Z.ltb_lt.
+  tauto.
+Qed.
+
+Lemma wfb_nil : wfb [] = true.
+Proof. reflexivity. Qed.
+
+Lemma pow256_S n : 256 ^ Z.of_nat (S n) = 256 * 256 ^ Z.of_nat n.
+Proof. rewrite Nat2Z.inj_succ, Z.pow_succ_r by lia. reflexivity. Qed.
+
+Lemma pow256_pos n : 0 < 256 ^ Z.of_nat n.
+Proof. apply Z.pow_pos_nonneg; lia. Qed.
+
+Lemma le_load_cons n x r : le_load (S n) (x :: r) = x + 256 * le_load n r.
+Proof. reflexivity. Qed.
+
+Lemma le_load_nil n : le_load n [] = 0.
+Proof. destruct n; reflexivity. Qed.
+
+(* every byte satisfies a boolean predicate that holds on 0..255 (finite sweep) *)
+Definition all_bytes : list Z := map Z.of_nat (seq 0 256).
+Lemma byte_sweep (P : Z -> bool) :
+  forallb P all_bytes = true -> forall b, 0 <= b < 256 -> P b = true.
+Proof.
+  intros H b Hb. rewrite forallb_forall in H. apply H.
+  unfold all_bytes. rewrite in_map_iff. exists (Z.to_nat b). split; [lia|].
+  apply in_seq. lia.
+Qed.
+Lemma byte_sweep2 (P : Z -> Z -> bool) :
+  forallb (fun c => forallb (P c) all_bytes) all_bytes = true ->
+  forall c b, 0 <= c < 256 -> 0 <= b < 256 -> P c b = true.
+Proof.
+  intros H c b Hc Hb.
+  pose proof (byte_sweep _ H c Hc) as H1. cbv beta in H1.
+  exact (byte_sweep _ H1 b Hb).
+Qed.
+
 (* ---------- loads ---------- *)
 Lemma le_load_bound n xs : wfb xs = true -> 0 <= le_load n xs < 256 ^ Z.of_nat n.
-Admitted.
+Proof.
+  revert xs; induction n as [|n IH]; intros xs H.
+  - cbn. lia.
+  - pose proof (pow256_pos n) as HP. rewrite pow256_S.
+    destruct xs as [|x r]; cbn [le_load]; [lia|].
+    apply wfb_cons in H. destruct H as [Hx Hr]. specialize (IH r Hr). lia.
+Qed.
+
+Lemma le_load_nonneg n xs : wfb xs = true -> 0 <= le_load n xs.
+Proof. intros H. apply (le_load_bound n xs H). Qed.
+
 Lemma le_load_firstn n xs : le_load n xs = le_load n (firstn n xs).
-Admitted.
+Proof.
+  revert xs; induction n as [|n IH]; intros xs; [reflexivity|].
+  destruct xs as [|x r]; [reflexivity|].
+  cbn [firstn le_load]. rewrite <- IH. reflexivity.
+Qed.
+
 Lemma le_load_inj n xs ys :
   wfb xs = true -> wfb ys = true -> length xs = n -> length ys = n ->
   le_load n xs = le_load n ys -> xs = ys.
-Admitted.
+Proof.
+  revert n ys; induction xs as [|x r IH]; intros n ys Hx Hy Lx Ly E.
+  - cbn in Lx. subst n. destruct ys; [reflexivity|discriminate].
+  - destruct n as [|n]; [discriminate|]. destruct ys as [|y s]; [discriminate|].
+    apply wfb_cons in Hx. apply wfb_cons in Hy. destruct Hx as [Bx Hx], Hy as [By Hy].
+    cbn [le_load] in E. cbn [length] in Lx, Ly.
+    assert (x = y /\ le_load n r = le_load n s) as [E1 E2] by lia.
+    subst y. f_equal. apply (IH n); auto.
+Qed.
+
+(* bits of a word split into its low lane and the rest *)
+Lemma divmod_lane x a : 0 <= x < 256 -> (x + 256 * a) mod 256 = x /\ (x + 256 * a) / 256 = a.
+Proof.
+  intros H. split.
+  - symmetry. apply Z.mod_unique with (q := a); lia.
+  - symmetry. apply Z.div_unique with (r := x); lia.
+Qed.
+
+Lemma testbit_lane x a i : 0 <= x < 256 -> 0 <= i ->
+  Z.testbit (x + 256 * a) i = if i <? 8 then Z.testbit x i else Z.testbit a (i - 8).
+Proof.
+  intros Hx Hi. destruct (divmod_lane x a Hx) as [Hm Hd].
+  destruct (Z.ltb_spec i 8).
+  - transitivity (Z.testbit ((x + 256 * a) mod 2 ^ 8) i).
+    + rewrite Z.mod_pow2_bits_low by lia. reflexivity.
+    + change (2 ^ 8) with 256. rewrite Hm. reflexivity.
+  - transitivity (Z.testbit ((x + 256 * a) / 2 ^ 8) (i - 8)).
+    + rewrite Z.div_pow2_bits by lia. f_equal; lia.
+    + change (2 ^ 8) with 256. rewrite Hd. reflexivity.
+Qed.
+
+Lemma byte_high_bits x i : 0 <= x < 256 -> 8 <= i -> Z.testbit x i = false.
+Proof.
+  intros Hx Hi. rewrite <- (Z.mod_small x (2 ^ 8)) by (change (2 ^ 8) with 256; lia).
+  apply Z.mod_pow2_bits_high. lia.
+Qed.
+
+Section BitOp.
+  Variable f : Z -> Z -> Z.
+  Variable fb : bool -> bool -> bool.
+  Hypothesis f_spec : forall a b i, Z.testbit (f a b) i = fb (Z.testbit a i) (Z.testbit b i).
+  Hypothesis fb_ff : fb false false = false.
+  Hypothesis f_nonneg : forall a b, 0 <= a -> 0 <= b -> 0 <= f a b.
+
+  Lemma bitop_byte x y : 0 <= x < 256 -> 0 <= y < 256 -> 0 <= f x y < 256.
+  Proof.
+    intros Hx Hy. split; [apply f_nonneg; lia|].
+    assert (E : f x y = f x y mod 2 ^ 8).
+    { apply Z.bits_inj'. intros i Hi. destruct (Z.ltb_spec i 8).
+      - rewrite Z.mod_pow2_bits_low by lia. reflexivity.
+      - rewrite Z.mod_pow2_bits_high by lia.
+        rewrite f_spec, !byte_high_bits by lia. exact fb_ff. }
+    rewrite E. change (2 ^ 8) with 256. apply Z.mod_pos_bound. lia.
+  Qed.
+
+  Lemma bitop_lane x y a b : 0 <= x < 256 -> 0 <= y < 256 ->
+    f (x + 256 * a) (y + 256 * b) = f x y + 256 * f a b.
+  Proof.
+    intros Hx Hy. pose proof (bitop_byte x y Hx Hy) as Hf.
+    apply Z.bits_inj'. intros i Hi.
+    rewrite f_spec, !testbit_lane by lia.
+    destruct (i <? 8); rewrite f_spec; reflexivity.
+  Qed.
+
+  Hypothesis f_00 : f 0 0 = 0.
+
+  Lemma le_load_zipw n xs ys :
+    wfb xs = true -> wfb ys = true -> length xs = n -> length ys = n ->
+    f (le_load n xs) (le_load n ys) = le_load n (zipw f xs ys).
+  Proof.
+    revert n ys; induction xs as [|x r IH]; intros n ys Hx Hy Lx Ly.
+    - cbn in Lx; subst n. cbn. exact f_00.
+    - destruct n as [|n]; [discriminate|]. destruct ys as [|y s]; [discriminate|].
+      apply wfb_cons in Hx. apply wfb_cons in Hy. destruct Hx as [Bx Hx], Hy as [By Hy].
+      cbn [length] in Lx, Ly. cbn [zipw le_load].
+      rewrite bitop_lane by assumption. rewrite (IH n) by (auto; lia). reflexivity.
+  Qed.
+
+  Lemma wfb_zipw xs ys : wfb xs = true -> wfb ys = true -> wfb (zipw f xs ys) = true.
+  Proof.
+    revert ys; induction xs as [|x r IH]; intros ys Hx Hy; [reflexivity|].
+    destruct ys as [|y s]; [reflexivity|].
+    apply wfb_cons in Hx. apply wfb_cons in Hy. destruct Hx as [Bx Hx], Hy as [By Hy].
+    cbn [zipw]. apply wfb_cons. split; [apply bitop_byte; assumption|auto].
+  Qed.
+End BitOp.
+
+Lemma length_zipw f xs ys : length xs = length ys -> length (zipw f xs ys) = length xs.
+Proof.
+  revert ys; induction xs as [|x r IH]; intros ys H; [reflexivity|].
+  destruct ys as [|y s]; [discriminate|]. cbn [zipw length] in *. rewrite IH; lia.
+Qed.
+
+Lemma zipw_repeat f xs c : zipw f xs (repeat c (length xs)) = map (fun b => f b c) xs.
+Proof. induction xs as [|x r IH]; [reflexivity|]. cbn [length repeat zipw map]. rewrite IH. reflexivity. Qed.
+
+Lemma land_byte x y : 0 <= x < 256 -> 0 <= y < 256 -> 0 <= Z.land x y < 256.
+Proof. apply (bitop_byte Z.land andb Z.land_spec eq_refl). intros; apply Z.land_nonneg; auto. Qed.
+Lemma lor_byte x y : 0 <= x < 256 -> 0 <= y < 256 -> 0 <= Z.lor x y < 256.
+Proof. apply (bitop_byte Z.lor orb Z.lor_spec eq_refl). intros; apply Z.lor_nonneg; auto. Qed.
+Lemma lxor_byte x y : 0 <= x < 256 -> 0 <= y < 256 -> 0 <= Z.lxor x y < 256.
+Proof. apply (bitop_byte Z.lxor xorb Z.lxor_spec eq_refl). intros; apply Z.lxor_nonneg; lia. Qed.
+
+Lemma wfb_zipw_land xs ys : wfb xs = true -> wfb ys = true -> wfb (zipw Z.land xs ys) = true.
+Proof. apply (wfb_zipw Z.land andb Z.land_spec eq_refl). intros; apply Z.land_nonneg; auto. Qed.
+Lemma wfb_zipw_lor xs ys : wfb xs = true -> wfb ys = true -> wfb (zipw Z.lor xs ys) = true.
+Proof. apply (wfb_zipw Z.lor orb Z.lor_spec eq_refl). intros; apply Z.lor_nonneg; auto. Qed.
+Lemma wfb_zipw_lxor xs ys : wfb xs = true -> wfb ys = true -> wfb (zipw Z.lxor xs ys) = true.
+Proof. apply (wfb_zipw Z.lxor xorb Z.lxor_spec eq_refl). intros; apply Z.lxor_nonneg; lia. Qed.
+
 Lemma le_load_land n xs ys :
   wfb xs = true -> wfb ys = true -> length xs = n -> length ys = n ->
   Z.land (le_load n xs) (le_load n ys) = le_load n (zipw Z.land xs ys).
-Admitted.
+Proof.
+  apply (le_load_zipw Z.land andb Z.land_spec eq_refl); [|reflexivity].
+  intros; apply Z.land_nonneg; auto.
+Qed.
 Lemma le_load_lor n xs ys :
   wfb xs = true -> wfb ys = true -> length xs = n -> length ys = n ->
   Z.lor (le_load n xs) (le_load n ys) = le_load n (zipw Z.lor xs ys).
-Admitted.
+Proof.
+  apply (le_load_zipw Z.lor orb Z.lor_spec eq_refl); [|reflexivity].
+  intros; apply Z.lor_nonneg; auto.
+Qed.
 Lemma le_load_lxor n xs ys :
   wfb xs = true -> wfb ys = true -> length xs = n -> length ys = n ->
   Z.lxor (le_load n xs) (le_load n ys) = le_load n (zipw Z.lxor xs ys).
-Admitted.
+Proof.
+  apply (le_load_zipw Z.lxor xorb Z.lxor_spec eq_refl); [|reflexivity].
+  intros; apply Z.lxor_nonneg; lia.
+Qed.
 Lemma le_load_zero_iff n xs :
   wfb xs = true -> length xs = n ->
   (le_load n xs = 0 <-> forallb (fun b => b =? 0) xs = true).
-Admitted.
+Proof.
+  revert n; induction xs as [|x r IH]; intros n Hx Lx.
+  - cbn in Lx; subst n. cbn. tauto.
+  - destruct n as [|n]; [discriminate|]. cbn [length] in Lx.
+    apply wfb_cons in Hx. destruct Hx as [Bx Hx].
+    pose proof (le_load_nonneg n r Hx) as HL.
+    cbn [le_load forallb]. rewrite andb_true_iff, Z.eqb_eq, <- (IH n) by (auto; lia). lia.
+Qed.
 Lemma expandN_mul n c : expandN n c = lsbN n * c.
-Admitted.
+Proof.
+  unfold expandN, lsbN. induction n as [|n IH]; [reflexivity|].
+  cbn [repeat le_load]. rewrite IH. ring.
+Qed.
 Lemma notN_lanes n xs :
   wfb xs = true -> length xs = n ->
   notN n (le_load n xs) = le_load n (map (fun b => 255 - b) xs).
-Admitted.
+Proof.
+  unfold notN. revert n; induction xs as [|x r IH]; intros n Hx Lx.
+  - cbn in Lx; subst n. reflexivity.
+  - destruct n as [|n]; [discriminate|]. cbn [length] in Lx.
+    apply wfb_cons in Hx. destruct Hx as [Bx Hx].
+    cbn [map le_load]. rewrite <- (IH n) by (auto; lia). rewrite pow256_S. ring.
+Qed.
+
+Lemma mod_lane u K P : 0 <= u < 256 -> 0 < P ->
+  (u + 256 * K) mod (256 * P) = u + 256 * (K mod P).
+Proof.
+  intros Hu HP. symmetry. apply Z.mod_unique with (q := K / P).
+  - left. pose proof (Z.mod_pos_bound K P HP). lia.
+  - pose proof (Z.div_mod K P ltac:(lia)) as E. rewrite E at 1. ring.
+Qed.
+
+Lemma sub_lanes_spec_gen n xs c bor :
+  wfb xs = true -> length xs = n -> 0 <= c < 256 -> 0 <= bor <= 1 ->
+  wN n (le_load n xs - lsbN n * c - bor) = le_load n (sub_lanes bor xs c).
+Proof.
+  unfold wN, lsbN. revert n bor; induction xs as [|x r IH]; intros n bor Hx Lx Hc Hb.
+  - cbn in Lx; subst n. cbn. apply Z.mod_1_r.
+  - destruct n as [|n]; [discriminate|]. cbn [length] in Lx.
+    apply wfb_cons in Hx. destruct Hx as [Bx Hx].
+    cbn [repeat le_load sub_lanes].
+    set (d := x - c - bor).
+    rewrite <- (IH n) by (auto; try lia; destruct (d <? 0); lia).
+    rewrite pow256_S. rewrite <- mod_lane by (try apply pow256_pos; apply Z.mod_pos_bound; lia).
+    f_equal.
+    assert (Hd : d = d mod 256 - 256 * (if d <? 0 then 1 else 0)).
+    { destruct (Z.ltb_spec d 0).
+      - replace (d mod 256) with (d + 256); [lia|].
+        apply Z.mod_unique with (q := -1); lia.
+      - rewrite Z.mod_small by lia. lia. }
+    set (L := le_load n r) in *. set (S := le_load n (repeat 1 n)) in *.
+    set (b' := if d <? 0 then 1 else 0) in *.
+    replace (x + 256 * L - (1 + 256 * S) * c - bor) with (d + 256 * (L - S * c)) by (unfold d; ring).
+    rewrite Hd at 1. ring.
+Qed.
+
 Lemma sub_lanes_spec n xs c :
   wfb xs = true -> length xs = n -> 0 <= c < 256 ->
   wN n (le_load n xs - lsbN n * c) = le_load n (sub_lanes 0 xs c).
-Admitted.
+Proof.
+  intros. rewrite <- sub_lanes_spec_gen by (auto; lia). f_equal. ring.
+Qed.
+
+Lemma add_lanes_spec_gen n xs c car :
+  wfb xs = true -> length xs = n -> 0 <= c < 256 -> 0 <= car <= 1 ->
+  wN n (le_load n xs + lsbN n * c + car) = le_load n (add_lanes car xs c).
+Proof.
+  unfold wN, lsbN. revert n car; induction xs as [|x r IH]; intros n car Hx Lx Hc Hb.
+  - cbn in Lx; subst n. cbn. apply Z.mod_1_r.
+  - destruct n as [|n]; [discriminate|]. cbn [length] in Lx.
+    apply wfb_cons in Hx. destruct Hx as [Bx Hx].
+    cbn [repeat le_load add_lanes].
+    set (d := x + c + car).
+    rewrite <- (IH n) by (auto; try lia; destruct (256 <=? d); lia).
+    rewrite pow256_S. rewrite <- mod_lane by (try apply pow256_pos; apply Z.mod_pos_bound; lia).
+    f_equal.
+    assert (Hd : d = d mod 256 + 256 * (if 256 <=? d then 1 else 0)).
+    { destruct (Z.leb_spec 256 d).
+      - replace (d mod 256) with (d - 256); [lia|].
+        apply Z.mod_unique with (q := 1); lia.
+      - rewrite Z.mod_small by lia. lia. }
+    set (L := le_load n r) in *. set (S := le_load n (repeat 1 n)) in *.
+    set (b' := if 256 <=? d then 1 else 0) in *.
+    replace (x + 256 * L + (1 + 256 * S) * c + car) with (d + 256 * (L + S * c)) by (unfold d; ring).
+    rewrite Hd at 1. ring.
+Qed.
+
 Lemma add_lanes_spec n xs c :
   wfb xs = true -> length xs = n -> 0 <= c < 256 ->
   wN n (le_load n xs + lsbN n * c) = le_load n (add_lanes 0 xs c).
-Admitted.
+Proof.
+  intros. rewrite <- add_lanes_spec_gen by (auto; lia). f_equal. ring.
+Qed.
+
 (* shifting out k lanes and masking recovers lane k *)
+Lemma shiftr_lane x L m : 0 <= x < 256 -> 0 <= m ->
+  Z.shiftr (x + 256 * L) (8 + m) = Z.shiftr L m.
+Proof.
+  intros Hx Hm. rewrite <- Z.shiftr_shiftr by lia. f_equal.
+  rewrite Z.shiftr_div_pow2 by lia. change (2 ^ 8) with 256. apply divmod_lane; assumption.
+Qed.
+
+Lemma lane_shift n xs k : wfb xs = true -> length xs = n -> (k < n)%nat ->
+  exists L, 0 <= L /\ (n = S k -> L = 0) /\ 0 <= nth k xs 0 < 256 /\
+    Z.shiftr (le_load n xs) (8 * Z.of_nat k) = nth k xs 0 + 256 * L.
+Proof.
+  revert n xs; induction k as [|k IH]; intros n xs Hx Lx Hk.
+  - destruct n as [|n]; [lia|]. destruct xs as [|x r]; [discriminate|].
+    apply wfb_cons in Hx; destruct Hx as [Bx Hx].
+    exists (le_load n r). cbn [nth le_load]. split; [apply le_load_nonneg; auto|].
+    split; [intros E; injection E as ->; reflexivity|]. split; [assumption|].
+    change (8 * Z.of_nat 0) with 0. apply Z.shiftr_0_r.
+  - destruct n as [|n]; [lia|]. destruct xs as [|x r]; [discriminate|].
+    apply wfb_cons in Hx; destruct Hx as [Bx Hx]. cbn [length] in Lx.
+    destruct (IH n r Hx ltac:(lia) ltac:(lia)) as (L & HL & Htop & Hb & E).
+    exists L. cbn [nth le_load]. split; [assumption|].
+    split; [intros E'; apply Htop; lia|]. split; [assumption|].
+    replace (8 * Z.of_nat (S k)) with (8 + 8 * Z.of_nat k) by lia.
+    rewrite shiftr_lane by lia. exact E.
+Qed.
+
 Lemma lane_extract n xs k :
   wfb xs = true -> length xs = n -> (k < n)%nat ->
   Z.land (Z.shiftr (le_load n xs) (8 * Z.of_nat k)) 255 = nth k xs 0.
-Admitted.
+Proof.
+  intros Hx Lx Hk. destruct (lane_shift n xs k Hx Lx Hk) as (L & HL & _ & Hb & E).
+  rewrite E. change 255 with (Z.ones 8). rewrite Z.land_ones by lia.
+  change (2 ^ 8) with 256. apply divmod_lane; assumption.
+Qed.
 Lemma lane_extract_nibble n xs k :
   wfb xs = true -> length xs = n -> (k < n)%nat ->
   Z.land (Z.shiftr (le_load n xs) (8 * Z.of_nat k)) 15 = (nth k xs 0) mod 16.
-Admitted.
+Proof.
+  intros Hx Lx Hk. destruct (lane_shift n xs k Hx Lx Hk) as (L & HL & _ & Hb & E).
+  rewrite E. change 15 with (Z.ones 4). rewrite Z.land_ones by lia.
+  change (2 ^ 4) with 16.
+  replace (nth k xs 0 + 256 * L) with (nth k xs 0 + (16 * L) * 16) by ring.
+  apply Z.mod_add. lia.
+Qed.
 Lemma lane_extract_top n xs k :
   wfb xs = true -> length xs = n -> n = S k ->
   Z.shiftr (le_load n xs) (8 * Z.of_nat k) = nth k xs 0.
-Admitted.
+Proof.
+  intros Hx Lx Hk. destruct (lane_shift n xs k Hx Lx ltac:(lia)) as (L & HL & Htop & Hb & E).
+  rewrite E, (Htop Hk). ring.
+Qed.
 
-(* ---------- words whose lanes carry a flag in bit 7 ---------- *)
+(* ---------- words whose lanes carry a msb_flag in bit 7 ---------- *)
+Definition msb_flag (b : Z) : Z := if b <? 128 then 0 else 128.
+
+Lemma land128 b : 0 <= b < 256 -> Z.land b 128 = msb_flag b.
+Proof.
+  intros Hb. apply Z.eqb_eq.
+  apply (byte_sweep (fun b => Z.land b 128 =? msb_flag b)); [vm_compute; reflexivity|assumption].
+Qed.
+
+Lemma wfb_In xs a : wfb xs = true -> In a xs -> 0 <= a < 256.
+Proof.
+  unfold wfb. rewrite forallb_forall. intros H Ha. specialize (H a Ha).
+  unfold is_byte in H. lia.
+Qed.
+
+Lemma wfb_repeat c n : 0 <= c < 256 -> wfb (repeat c n) = true.
+Proof.
+  intros Hc. induction n as [|n IH]; [reflexivity|].
+  cbn [repeat]. apply wfb_cons. auto.
+Qed.
+
+Lemma wfb_map f xs : (forall b, 0 <= b < 256 -> 0 <= f b < 256) ->
+  wfb xs = true -> wfb (map f xs) = true.
+Proof.
+  intros Hf. induction xs as [|x r IH]; intros H; [reflexivity|].
+  apply wfb_cons in H. destruct H as [Bx Hr]. cbn [map]. apply wfb_cons. auto.
+Qed.
+
+Lemma flag_byte b : 0 <= msb_flag b < 256.
+Proof. unfold msb_flag. destruct (b <? 128); lia. Qed.
+
+Lemma land_msbN n xs : wfb xs = true -> length xs = n ->
+  Z.land (le_load n xs) (msbN n) = le_load n (map msb_flag xs).
+Proof.
+  intros Hx Lx. unfold msbN.
+  rewrite le_load_land by (auto using wfb_repeat, repeat_length; apply wfb_repeat; lia).
+  subst n. rewrite zipw_repeat. f_equal. apply map_ext_in.
+  intros a Ha. apply land128. eapply wfb_In; eauto.
+Qed.
+
+Lemma wfb_map_flag xs : wfb (map msb_flag xs) = true.
+Proof.
+  induction xs as [|x r IH]; [reflexivity|]. cbn [map]. apply wfb_cons.
+  split; [apply flag_byte|assumption].
+Qed.
+
+Lemma flags_zero_iff n xs : length xs = n ->
+  (le_load n (map msb_flag xs) = 0 <-> forallb (fun b => b <? 128) xs = true).
+Proof.
+  revert n; induction xs as [|x r IH]; intros n Lx.
+  - cbn in Lx; subst n. cbn. tauto.
+  - destruct n as [|n]; [discriminate|]. cbn [length] in Lx.
+    pose proof (le_load_nonneg n _ (wfb_map_flag r)) as HL.
+    cbn [map le_load forallb]. rewrite andb_true_iff, <- (IH n) by lia.
+    unfold msb_flag at 1. destruct (Z.ltb_spec x 128); lia.
+Qed.
+
 Lemma msb_flags_zero_iff n xs :
   wfb xs = true -> length xs = n ->
   (Z.land (le_load n xs) (msbN n) = 0 <-> forallb (fun b => b <? 128) xs = true).
-Admitted.
+Proof. intros Hx Lx. rewrite land_msbN by assumption. apply flags_zero_iff; assumption. Qed.
+
+Lemma ctz_128 d L : 0 <= L -> ctz d (128 + 256 * L) = 7.
+Proof.
+  destruct L as [|p|p]; try lia; intros _; [reflexivity|].
+  change (128 + 256 * Z.pos p) with (Z.pos p~1~0~0~0~0~0~0~0). cbn [ctz ctz_pos]. lia.
+Qed.
+Lemma ctz_256 d L : 0 < L -> ctz d (256 * L) = 8 + ctz d L.
+Proof.
+  destruct L as [|p|p]; try lia; intros _.
+  change (256 * Z.pos p) with (Z.pos p~0~0~0~0~0~0~0~0). cbn [ctz ctz_pos]. lia.
+Qed.
+
+Lemma flags_ctz n xs d : length xs = n ->
+  le_load n (map msb_flag xs) <> 0 ->
+  ctz d (le_load n (map msb_flag xs)) / 8 = Z.of_nat (find_index (fun b => 128 <=? b) xs).
+Proof.
+  revert n; induction xs as [|x r IH]; intros n Lx.
+  - cbn in Lx; subst n. cbn. lia.
+  - destruct n as [|n]; [discriminate|]. cbn [length] in Lx.
+    pose proof (le_load_nonneg n _ (wfb_map_flag r)) as HL.
+    cbn [map le_load find_index]. specialize (IH n ltac:(lia)).
+    set (L := le_load n (map msb_flag r)) in *. unfold msb_flag.
+    destruct (Z.ltb_spec x 128); intros NZ.
+    + replace (128 <=? x) with false by lia.
+      rewrite Z.add_0_l in *. rewrite ctz_256 by lia.
+      rewrite Nat2Z.inj_succ, <- IH by lia.
+      replace (8 + ctz d L) with (1 * 8 + ctz d L) by ring.
+      rewrite Z.div_add_l by lia. lia.
+    + replace (128 <=? x) with true by lia.
+      rewrite ctz_128 by assumption. reflexivity.
+Qed.
+
 Lemma msb_flags_ctz n xs d :
   wfb xs = true -> length xs = n ->
   Z.land (le_load n xs) (msbN n) <> 0 ->
   ctz d (Z.land (le_load n xs) (msbN n)) / 8 = Z.of_nat (find_index (fun b => 128 <=? b) xs).
-Admitted.
+Proof. intros Hx Lx. rewrite land_msbN by assumption. apply flags_ctz; assumption. Qed.
+
+(* ---------- lane lists of the borrow/carry chains ---------- *)
+Lemma wfb_sub_lanes bor xs c : wfb (sub_lanes bor xs c) = true.
+Proof.
+  revert bor; induction xs as [|x r IH]; intros bor; [reflexivity|].
+  cbn [sub_lanes]. apply wfb_cons. split; [apply Z.mod_pos_bound; lia|apply IH].
+Qed.
+Lemma wfb_add_lanes car xs c : wfb (add_lanes car xs c) = true.
+Proof.
+  revert car; induction xs as [|x r IH]; intros car; [reflexivity|].
+  cbn [add_lanes]. apply wfb_cons. split; [apply Z.mod_pos_bound; lia|apply IH].
+Qed.
+Lemma length_sub_lanes bor xs c : length (sub_lanes bor xs c) = length xs.
+Proof.
+  revert bor; induction xs as [|x r IH]; intros bor; [reflexivity|].
+  cbn [sub_lanes length]. rewrite IH. reflexivity.
+Qed.
+Lemma length_add_lanes car xs c : length (add_lanes car xs c) = length xs.
+Proof.
+  revert car; induction xs as [|x r IH]; intros car; [reflexivity|].
+  cbn [add_lanes length]. rewrite IH. reflexivity.
+Qed.
+
+(* A lane-list transformer F whose output lane has bit 7 clear on every good input lane
+   (and then continues as on the tail, i.e. nothing is borrowed or carried), and bit 7
+   set on the first bad lane: the msb_flag word of F xs is zero iff all lanes are good, and
+   its lowest flagged lane is the first bad lane. *)
+Section FirstBad.
+  Variables (good bad : Z -> bool) (F : bytes -> bytes).
+  Hypothesis Hgb : forall x, 0 <= x < 256 -> bad x = negb (good x).
+  Hypothesis Fnil : F [] = [].
+  Hypothesis Fgood : forall x r, 0 <= x < 256 -> good x = true ->
+    exists h, h < 128 /\ F (x :: r) = h :: F r.
+  Hypothesis Fbad : forall x r, 0 <= x < 256 -> good x = false ->
+    exists h t, 128 <= h /\ F (x :: r) = h :: t.
+  Hypothesis Fwfb : forall xs, wfb xs = true -> wfb (F xs) = true.
+  Hypothesis Flen : forall xs, length (F xs) = length xs.
+
+  Lemma first_bad xs : wfb xs = true ->
+    forallb (fun b => b <? 128) (F xs) = forallb good xs /\
+    find_index (fun b => 128 <=? b) (F xs) = find_index bad xs.
+  Proof.
+    induction xs as [|x r IH]; intros H.
+    - rewrite Fnil. split; reflexivity.
+    - apply wfb_cons in H. destruct H as [Bx Hr]. destruct (IH Hr) as [IH1 IH2].
+      cbn [forallb find_index]. rewrite (Hgb x Bx).
+      destruct (good x) eqn:G; cbn [negb andb].
+      + destruct (Fgood x r Bx G) as (h & Hh & E). rewrite E. cbn [forallb find_index].
+        replace (h <? 128) with true by lia. replace (128 <=? h) with false by lia.
+        cbn [andb]. split; congruence.
+      + destruct (Fbad x r Bx G) as (h & t & Hh & E). rewrite E. cbn [forallb find_index].
+        replace (h <? 128) with false by lia. replace (128 <=? h) with true by lia.
+        split; reflexivity.
+  Qed.
+
+  Lemma first_bad_zero n xs : wfb xs = true -> length xs = n ->
+    (Z.land (le_load n (F xs)) (msbN n) = 0 <-> forallb good xs = true).
+  Proof.
+    intros Hx Lx. rewrite msb_flags_zero_iff by (auto; rewrite Flen; assumption).
+    destruct (first_bad xs Hx) as [E _]. rewrite E. tauto.
+  Qed.
+
+  Lemma first_bad_index n xs d : wfb xs = true -> length xs = n ->
+    Z.land (le_load n (F xs)) (msbN n) <> 0 ->
+    ctz d (Z.land (le_load n (F xs)) (msbN n)) / 8 = Z.of_nat (find_index bad xs).
+  Proof.
+    intros Hx Lx NZ. rewrite msb_flags_ctz by (auto; rewrite Flen; assumption).
+    destruct (first_bad xs Hx) as [_ E]. rewrite E. reflexivity.
+  Qed.
+End FirstBad.
 
 (* ---------- the tricks ---------- *)
-(* hasLess: some byte < c  (1 <= c <= 128); the lowest flagged lane is the FIRST such byte *)
+Lemma wfb_map_not xs : wfb xs = true -> wfb (map (fun b => 255 - b) xs) = true.
+Proof. apply wfb_map. intros; lia. Qed.
+Lemma wfb_map_lxor c xs : 0 <= c < 256 -> wfb xs = true -> wfb (map (fun b => Z.lxor b c) xs) = true.
+Proof. intros Hc. apply wfb_map. intros; apply lxor_byte; assumption. Qed.
+
+(* hasLess *)
+Definition hasless_F (c : Z) (xs : bytes) : bytes :=
+  zipw Z.land (sub_lanes 0 xs c) (map (fun b => 255 - b) xs).
+
+Lemma hasless_lanes n xs c : wfb xs = true -> length xs = n -> 0 <= c < 256 ->
+  hasless_mask n (le_load n xs) c = Z.land (le_load n (hasless_F c xs)) (msbN n).
+Proof.
+  intros Hx Lx Hc. unfold hasless_mask, hasless_F.
+  rewrite sub_lanes_spec, notN_lanes by assumption.
+  rewrite le_load_land; auto using wfb_sub_lanes, wfb_map_not.
+  - rewrite length_sub_lanes; assumption.
+  - rewrite map_length; assumption.
+Qed.
+
+Lemma hasless_lane c x : 1 <= c <= 128 -> 0 <= x < 256 ->
+  (if c <=? x then Z.land ((x - c - 0) mod 256) (255 - x) <? 128
+   else 128 <=? Z.land ((x - c - 0) mod 256) (255 - x)) = true.
+Proof.
+  intros Hc Hx.
+  pose proof (byte_sweep2
+    (fun c x => implb ((1 <=? c) && (c <=? 128))
+       (if c <=? x then Z.land ((x - c - 0) mod 256) (255 - x) <? 128
+        else 128 <=? Z.land ((x - c - 0) mod 256) (255 - x)))
+    ltac:(vm_compute; reflexivity) c x ltac:(lia) Hx) as H.
+  cbv beta in H. replace ((1 <=? c) && (c <=? 128)) with true in H by lia. exact H.
+Qed.
+
+Lemma hasless_first_bad c : 1 <= c <= 128 ->
+  (forall x r, 0 <= x < 256 -> (c <=? x) = true ->
+     exists h, h < 128 /\ hasless_F c (x :: r) = h :: hasless_F c r) /\
+  (forall x r, 0 <= x < 256 -> (c <=? x) = false ->
+     exists h t, 128 <= h /\ hasless_F c (x :: r) = h :: t).
+Proof.
+  intros Hc. split; intros x r Bx G; pose proof (hasless_lane c x Hc Bx) as HL;
+    rewrite G in HL; unfold hasless_F; cbn [sub_lanes map zipw].
+  - replace (x - c - 0 <? 0) with false by lia.
+    eexists; split; [|reflexivity]. lia.
+  - do 2 eexists; split; [|reflexivity]. lia.
+Qed.
+
+Lemma hasless_wfb c xs : wfb xs = true -> wfb (hasless_F c xs) = true.
+Proof. intros. apply wfb_zipw_land; auto using wfb_sub_lanes, wfb_map_not. Qed.
+Lemma hasless_len c xs : length (hasless_F c xs) = length xs.
+Proof.
+  unfold hasless_F. rewrite length_zipw; rewrite length_sub_lanes; [reflexivity|].
+  rewrite map_length; reflexivity.
+Qed.
+
 Theorem hasless_zero_iff n xs c :
   wfb xs = true -> length xs = n -> 1 <= c <= 128 ->
   (hasless_mask n (le_load n xs) c = 0 <-> forallb (fun b => c <=? b) xs = true).
-Admitted.
+Proof.
+  intros Hx Lx Hc. rewrite hasless_lanes by (auto; lia).
+  destruct (hasless_first_bad c Hc) as [Hg Hb].
+  apply (first_bad_zero (fun b => c <=? b) (fun b => b <? c) (hasless_F c));
+    auto using hasless_wfb, hasless_len.
+  intros; lia.
+Qed.
 Theorem hasless_index n xs c d :
   wfb xs = true -> length xs = n -> 1 <= c <= 128 ->
   hasless_mask n (le_load n xs) c <> 0 ->
   ctz d (hasless_mask n (le_load n xs) c) / 8 = Z.of_nat (find_index (fun b => b <? c) xs).
-Admitted.
-(* hasMore: some byte > c  (0 <= c <= 127) *)
+Proof.
+  intros Hx Lx Hc. rewrite hasless_lanes by (auto; lia).
+  destruct (hasless_first_bad c Hc) as [Hg Hb].
+  apply (first_bad_index (fun b => c <=? b) (fun b => b <? c) (hasless_F c));
+    auto using hasless_wfb, hasless_len.
+  intros; lia.
+Qed.
+
+(* hasMore *)
+Definition hasmore_F (c : Z) (xs : bytes) : bytes :=
+  zipw Z.lor (add_lanes 0 xs (127 - c)) xs.
+
+Lemma hasmore_lanes n xs c : wfb xs = true -> length xs = n -> 0 <= c <= 127 ->
+  hasmore_mask n (le_load n xs) c = Z.land (le_load n (hasmore_F c xs)) (msbN n).
+Proof.
+  intros Hx Lx Hc. unfold hasmore_mask, hasmore_F.
+  rewrite add_lanes_spec by (auto; lia).
+  rewrite le_load_lor; auto using wfb_add_lanes.
+  rewrite length_add_lanes; assumption.
+Qed.
+
+Lemma hasmore_lane c x : 0 <= c <= 127 -> 0 <= x < 256 ->
+  (if x <=? c then negb (256 <=? x + (127 - c) + 0) && (Z.lor ((x + (127 - c) + 0) mod 256) x <? 128)
+   else 128 <=? Z.lor ((x + (127 - c) + 0) mod 256) x) = true.
+Proof.
+  intros Hc Hx.
+  pose proof (byte_sweep2
+    (fun c x => implb (c <=? 127)
+       (if x <=? c then negb (256 <=? x + (127 - c) + 0) && (Z.lor ((x + (127 - c) + 0) mod 256) x <? 128)
+        else 128 <=? Z.lor ((x + (127 - c) + 0) mod 256) x))
+    ltac:(vm_compute; reflexivity) c x ltac:(lia) Hx) as H.
+  cbv beta in H. replace (c <=? 127) with true in H by lia. exact H.
+Qed.
+
+Lemma hasmore_first_bad c : 0 <= c <= 127 ->
+  (forall x r, 0 <= x < 256 -> (x <=? c) = true ->
+     exists h, h < 128 /\ hasmore_F c (x :: r) = h :: hasmore_F c r) /\
+  (forall x r, 0 <= x < 256 -> (x <=? c) = false ->
+     exists h t, 128 <= h /\ hasmore_F c (x :: r) = h :: t).
+Proof.
+  intros Hc. split; intros x r Bx G; pose proof (hasmore_lane c x Hc Bx) as HL;
+    rewrite G in HL; unfold hasmore_F; cbn [add_lanes zipw].
+  - apply andb_prop in HL. destruct HL as [H1 H2]. apply negb_true_iff in H1. rewrite H1.
+    eexists; split; [|reflexivity]. lia.
+  - do 2 eexists; split; [|reflexivity]. lia.
+Qed.
+
+Lemma hasmore_wfb c xs : wfb xs = true -> wfb (hasmore_F c xs) = true.
+Proof. intros. apply wfb_zipw_lor; auto using wfb_add_lanes. Qed.
+Lemma hasmore_len c xs : length (hasmore_F c xs) = length xs.
+Proof. unfold hasmore_F. rewrite length_zipw; rewrite length_add_lanes; reflexivity. Qed.
+
 Theorem hasmore_zero_iff n xs c :
   wfb xs = true -> length xs = n -> 0 <= c <= 127 ->
   (hasmore_mask n (le_load n xs) c = 0 <-> forallb (fun b => b <=? c) xs = true).
-Admitted.
+Proof.
+  intros Hx Lx Hc. rewrite hasmore_lanes by auto.
+  destruct (hasmore_first_bad c Hc) as [Hg Hb].
+  apply (first_bad_zero (fun b => b <=? c) (fun b => negb (b <=? c)) (hasmore_F c));
+    auto using hasmore_wfb, hasmore_len.
+Qed.
+
 (* iso8601 nonNumeric *)
+Definition nonnum_F (xs : bytes) : bytes :=
+  zipw Z.lor (zipw Z.lor (sub_lanes 0 xs 48) (add_lanes 0 xs 70)) xs.
+
+Lemma map_repeat_const {A B} (f : A -> B) c n : map f (repeat c n) = repeat (f c) n.
+Proof. induction n as [|n IH]; [reflexivity|]. cbn [repeat map]. rewrite IH. reflexivity. Qed.
+
+Lemma not_msb_minus n : notN n (msbN n) - lsbN n * 57 = lsbN n * 70.
+Proof.
+  unfold msbN. rewrite notN_lanes by (try apply repeat_length; apply wfb_repeat; lia).
+  rewrite map_repeat_const. change (255 - 128) with 127.
+  change (le_load n (repeat 127 n)) with (expandN n 127). rewrite expandN_mul. ring.
+Qed.
+
+Lemma nonnum_lanes n xs : wfb xs = true -> length xs = n ->
+  nonnumeric_mask n (le_load n xs) = Z.land (le_load n (nonnum_F xs)) (msbN n).
+Proof.
+  intros Hx Lx. unfold nonnumeric_mask, nonnum_F.
+  rewrite not_msb_minus.
+  rewrite sub_lanes_spec, add_lanes_spec by (auto; lia).
+  rewrite !le_load_lor; auto using wfb_add_lanes, wfb_sub_lanes, wfb_zipw_lor;
+    rewrite ?length_zipw; rewrite ?length_add_lanes, ?length_sub_lanes; auto.
+Qed.
+
+Lemma nonnum_lane x : 0 <= x < 256 ->
+  (if isdigitb x
+   then negb (x - 48 - 0 <? 0) && negb (256 <=? x + 70 + 0) &&
+        (Z.lor (Z.lor ((x - 48 - 0) mod 256) ((x + 70 + 0) mod 256)) x <? 128)
+   else 128 <=? Z.lor (Z.lor ((x - 48 - 0) mod 256) ((x + 70 + 0) mod 256)) x) = true.
+Proof.
+  intros Hx.
+  exact (byte_sweep
+    (fun x => if isdigitb x
+       then negb (x - 48 - 0 <? 0) && negb (256 <=? x + 70 + 0) &&
+            (Z.lor (Z.lor ((x - 48 - 0) mod 256) ((x + 70 + 0) mod 256)) x <? 128)
+       else 128 <=? Z.lor (Z.lor ((x - 48 - 0) mod 256) ((x + 70 + 0) mod 256)) x)
+    ltac:(vm_compute; reflexivity) x Hx).
+Qed.
+
+Lemma nonnum_first_bad :
+  (forall x r, 0 <= x < 256 -> isdigitb x = true ->
+     exists h, h < 128 /\ nonnum_F (x :: r) = h :: nonnum_F r) /\
+  (forall x r, 0 <= x < 256 -> isdigitb x = false ->
+     exists h t, 128 <= h /\ nonnum_F (x :: r) = h :: t).
+Proof.
+  split; intros x r Bx G; pose proof (nonnum_lane x Bx) as HL;
+    rewrite G in HL; unfold nonnum_F; cbn [sub_lanes add_lanes zipw].
+  - rewrite !andb_true_iff, !negb_true_iff in HL. destruct HL as [[H1 H2] H3].
+    rewrite H1, H2. eexists; split; [|reflexivity]. lia.
+  - do 2 eexists; split; [|reflexivity]. lia.
+Qed.
+
+Lemma nonnum_wfb xs : wfb xs = true -> wfb (nonnum_F xs) = true.
+Proof. intros. unfold nonnum_F. auto using wfb_zipw_lor, wfb_add_lanes, wfb_sub_lanes. Qed.
+Lemma nonnum_len xs : length (nonnum_F xs) = length xs.
+Proof.
+  unfold nonnum_F. rewrite !length_zipw; rewrite ?length_zipw;
+    rewrite ?length_sub_lanes, ?length_add_lanes; reflexivity.
+Qed.
+
 Theorem nonnumeric_zero_iff n xs :
   wfb xs = true -> length xs = n ->
   (nonnumeric_mask n (le_load n xs) = 0 <-> forallb isdigitb xs = true).
-Admitted.
+Proof.
+  intros Hx Lx. rewrite nonnum_lanes by auto.
+  destruct nonnum_first_bad as [Hg Hb].
+  apply (first_bad_zero isdigitb (fun b => negb (isdigitb b)) nonnum_F);
+    auto using nonnum_wfb, nonnum_len.
+Qed.
+
 (* subtracting '0' from an all-digit word does not borrow *)
 Theorem digits_sub_zero n xs :
   wfb xs = true -> length xs = n -> forallb isdigitb xs = true ->
   wN n (le_load n xs - lsbN n * 48) = le_load n (map (fun b => b - 48) xs).
-Admitted.
+Proof.
+  intros Hx Lx Hd. rewrite sub_lanes_spec by (auto; lia). f_equal.
+  clear n Lx Hx. induction xs as [|x r IH]; [reflexivity|].
+  cbn [forallb] in Hd. apply andb_prop in Hd. destruct Hd as [D1 D2].
+  unfold isdigitb in D1. cbn [sub_lanes map].
+  replace (x - 48 - 0 <? 0) with false by lia.
+  rewrite (IH D2). f_equal. rewrite Z.mod_small; lia.
+Qed.
+
 (* json escapeIndex on one chunk *)
+Definition cont_L (c : Z) (xs : bytes) : bytes := sub_lanes 0 (map (fun b => Z.lxor b c) xs) 1.
+
+Lemma contains_lanes n xs c : wfb xs = true -> length xs = n -> 0 <= c < 256 ->
+  contains_w n (le_load n xs) c = le_load n (cont_L c xs).
+Proof.
+  intros Hx Lx Hc. unfold contains_w, cont_L.
+  rewrite <- expandN_mul. unfold expandN.
+  rewrite le_load_lxor by (auto using repeat_length; apply wfb_repeat; assumption).
+  subst n. rewrite zipw_repeat.
+  replace (lsbN (length xs)) with (lsbN (length xs) * 1) by ring.
+  apply sub_lanes_spec; [apply wfb_map_lxor; assumption|apply map_length|lia].
+Qed.
+
+Lemma cont_wfb c xs : wfb (cont_L c xs) = true.
+Proof. apply wfb_sub_lanes. Qed.
+Lemma cont_len c xs : length (cont_L c xs) = length xs.
+Proof. unfold cont_L. rewrite length_sub_lanes. apply map_length. Qed.
+
+Lemma length_zipw_n f xs ys n : length xs = n -> length ys = n -> length (zipw f xs ys) = n.
+Proof. intros H1 H2. rewrite length_zipw; congruence. Qed.
+
+Ltac lanes_solve_len :=
+  repeat apply length_zipw_n;
+  rewrite ?cont_len, ?length_sub_lanes, ?length_add_lanes, ?map_length; auto.
+
+Definition esc_F0 (xs : bytes) : bytes :=
+  zipw Z.lor (zipw Z.lor (zipw Z.lor xs (sub_lanes 0 xs 32)) (cont_L 34 xs)) (cont_L 92 xs).
+Definition esc_F (html : bool) (xs : bytes) : bytes :=
+  if html
+  then zipw Z.lor (esc_F0 xs) (zipw Z.lor (zipw Z.lor (cont_L 60 xs) (cont_L 62 xs)) (cont_L 38 xs))
+  else esc_F0 xs.
+
+Lemma esc_wfb html xs : wfb xs = true -> wfb (esc_F html xs) = true.
+Proof.
+  intros. unfold esc_F, esc_F0.
+  destruct html; auto 10 using wfb_zipw_lor, wfb_sub_lanes, cont_wfb.
+Qed.
+Lemma esc_F0_len xs : length (esc_F0 xs) = length xs.
+Proof. unfold esc_F0. lanes_solve_len. Qed.
+Lemma esc_len html xs : length (esc_F html xs) = length xs.
+Proof.
+  unfold esc_F. destruct html; [|apply esc_F0_len].
+  apply length_zipw_n; [apply esc_F0_len|lanes_solve_len].
+Qed.
+
+Lemma escape_lanes n xs html : wfb xs = true -> length xs = n ->
+  escape_mask n (le_load n xs) html = Z.land (le_load n (esc_F html xs)) (msbN n).
+Proof.
+  intros Hx Lx. unfold escape_mask, esc_F.
+  assert (E0 : Z.lor (Z.lor (Z.lor (le_load n xs) (below_w n (le_load n xs) 32))
+                 (contains_w n (le_load n xs) 34)) (contains_w n (le_load n xs) 92)
+               = le_load n (esc_F0 xs)).
+  { unfold below_w, esc_F0. rewrite sub_lanes_spec by (auto; lia).
+    rewrite !contains_lanes by (auto; lia).
+    rewrite !le_load_lor; auto using wfb_zipw_lor, wfb_sub_lanes, cont_wfb; lanes_solve_len. }
+  cbv zeta. rewrite E0. destruct html; [|reflexivity].
+  pose proof (esc_wfb false xs Hx) as W0. pose proof (esc_F0_len xs) as L0.
+  change (esc_F false xs) with (esc_F0 xs) in W0.
+  rewrite !contains_lanes by (auto; lia).
+  rewrite !le_load_lor; auto using wfb_zipw_lor, cont_wfb; lanes_solve_len; congruence.
+Qed.
+
+Definition esc_cl (c x : Z) : Z := (Z.lxor x c - 1 - 0) mod 256.      (* lane of contains *)
+Definition esc_cb (c x : Z) : bool := Z.lxor x c - 1 - 0 <? 0.       (* its borrow *)
+Definition esc_h0 (x : Z) : Z :=
+  Z.lor (Z.lor (Z.lor x ((x - 32 - 0) mod 256)) (esc_cl 34 x)) (esc_cl 92 x).
+Definition esc_h (html : bool) (x : Z) : Z :=
+  if html then Z.lor (esc_h0 x) (Z.lor (Z.lor (esc_cl 60 x) (esc_cl 62 x)) (esc_cl 38 x)) else esc_h0 x.
+
+Lemma esc_lane html x : 0 <= x < 256 ->
+  (if needs_escape html x then 128 <=? esc_h html x
+   else negb (x - 32 - 0 <? 0) && negb (esc_cb 34 x) && negb (esc_cb 92 x) &&
+        negb (html && esc_cb 60 x) && negb (html && esc_cb 62 x) && negb (html && esc_cb 38 x) &&
+        (esc_h html x <? 128)) = true.
+Proof.
+  intros Hx.
+  destruct html;
+  [ exact (byte_sweep
+      (fun x => if needs_escape true x then 128 <=? esc_h true x
+         else negb (x - 32 - 0 <? 0) && negb (esc_cb 34 x) && negb (esc_cb 92 x) &&
+              negb (true && esc_cb 60 x) && negb (true && esc_cb 62 x) && negb (true && esc_cb 38 x) &&
+              (esc_h true x <? 128))
+      ltac:(vm_compute; reflexivity) x Hx)
+  | exact (byte_sweep
+      (fun x => if needs_escape false x then 128 <=? esc_h false x
+         else negb (x - 32 - 0 <? 0) && negb (esc_cb 34 x) && negb (esc_cb 92 x) &&
+              negb (false && esc_cb 60 x) && negb (false && esc_cb 62 x) && negb (false && esc_cb 38 x) &&
+              (esc_h false x <? 128))
+      ltac:(vm_compute; reflexivity) x Hx) ].
+Qed.
+
+Lemma cont_cons c x r :
+  cont_L c (x :: r) = esc_cl c x :: sub_lanes (if esc_cb c x then 1 else 0) (map (fun b => Z.lxor b c) r) 1.
+Proof. reflexivity. Qed.
+
+Lemma esc_first_bad html :
+  (forall x r, 0 <= x < 256 -> negb (needs_escape html x) = true ->
+     exists h, h < 128 /\ esc_F html (x :: r) = h :: esc_F html r) /\
+  (forall x r, 0 <= x < 256 -> negb (needs_escape html x) = false ->
+     exists h t, 128 <= h /\ esc_F html (x :: r) = h :: t).
+Proof.
+  split; intros x r Bx G; pose proof (esc_lane html x Bx) as HL.
+  - apply negb_true_iff in G. rewrite G in HL.
+    rewrite !andb_true_iff, !negb_true_iff in HL.
+    destruct HL as [[[[[[H1 H2] H3] H4] H5] H6] H7].
+    exists (esc_h html x). split; [lia|].
+    unfold esc_F, esc_F0. rewrite !cont_cons. cbn [sub_lanes zipw].
+    destruct html; cbn [andb] in H4, H5, H6.
+    + rewrite H1, H2, H3, H4, H5, H6. reflexivity.
+    + rewrite H1, H2, H3. reflexivity.
+  - apply negb_false_iff in G. rewrite G in HL.
+    exists (esc_h html x). unfold esc_F, esc_F0. rewrite !cont_cons. cbn [sub_lanes zipw].
+    destruct html; (eexists; split; [lia|reflexivity]).
+Qed.
+
 Theorem escape_mask_zero_iff n xs html :
   wfb xs = true -> length xs = n ->
   (escape_mask n (le_load n xs) html = 0 <-> forallb (fun b => negb (needs_escape html b)) xs = true).
-Admitted.
+Proof.
+  intros Hx Lx. rewrite escape_lanes by auto.
+  destruct (esc_first_bad html) as [Hg Hb].
+  apply (first_bad_zero (fun b => negb (needs_escape html b)) (needs_escape html) (esc_F html));
+    auto using esc_wfb, esc_len.
+  - intros; symmetry; apply negb_involutive.
+  - destruct html; reflexivity.
+Qed.
 Theorem escape_mask_index n xs html d :
   wfb xs = true -> length xs = n ->
   escape_mask n (le_load n xs) html <> 0 ->
   ctz d (escape_mask n (le_load n xs) html) / 8 = Z.of_nat (find_index (needs_escape html) xs).
-Admitted.
+Proof.
+  intros Hx Lx. rewrite escape_lanes by auto.
+  destruct (esc_first_bad html) as [Hg Hb].
+  apply (first_bad_index (fun b => negb (needs_escape html b)) (needs_escape html) (esc_F html));
+    auto using esc_wfb, esc_len.
+  - intros; symmetry; apply negb_involutive.
+  - destruct html; reflexivity.
+Qed.
+
